@@ -29,14 +29,22 @@ RULE = ("classes built on the eligibility boundary of trusted deserialization: e
         "classes not fast), create_serializer with serialize_none x compact in 2x2, x.serialize() vs Serializer(twin); "
         "for flag-free cases the serializer also comes to exist implicitly at first instantiation, or implicitly for a "
         "SUBCLASS (fields split over a parent and a child class) after the parent was instantiated / got its own "
-        "serializer; JSON arrays of Set fields repeat elements; every case builds fresh classes; distinct by case hash")
+        "serializer; mode firstuse: fresh FastSerializable class trees WITHOUT create_serializer (25% with simple mappers) whose FIRST "
+        "instance is made by a shortcut path (trusted deserialization incl. the nested classes it builds, from_trusted_data(None, **kw), "
+        "from_trusted_data(mapping), trust_supplied_values + constructor; 15% of the optional-only classes from no values at all): "
+        "x.serialize() of the instance and of every reachable nested instance vs the model (fastSerializeFirst) and vs the same path on an "
+        "identically declared tree whose classes were instantiated by the validating constructor first; JSON arrays of Set fields repeat "
+        "elements; every case builds fresh classes; distinct by case hash")
 ASSUMPTIONS = [
     "fail-fast mode, no Versioned classes, no Constant fields, no class inheritance, no uniqueness features",
     "rename mappers are injective on the class's fields (key collisions are C07's subject); one mapper per class, no lists of mappers "
     "except as the 'unsupported' kind",
     "SerializableField types other than Enum (DateField, DateTime, TimeField, DecimalNumber) and Enum serialization_by_value are not in the model",
-    "the regular path with mappers is not modelled here (C07 models it): for class trees with mappers the regular result is "
-    "used by the oracle but not corresponded; the trusted and fast paths are modelled with the classes' own simple mappers",
+    "the regular path with mappers is modelled as Spec/TrustedSafe.deserializeMapped (every class-level object read through its class's "
+    "own simple mapper, then the mapper-free regular path) and corresponded where no named deviation of the real regular path applies "
+    "(enclosing TO_CAMELCASE/TO_LOWERCASE reaching nested classes, chained parent mappers, field-name fallback, a renamed field's original "
+    "key kept as an undeclared attribute, Map/Tuple of classes); C07 models the aggregate itself (composed with in trusted_key_is_regular_key); "
+    "the trusted and fast paths are modelled with the classes' own simple mappers",
     "attribute order of __dict__ / key order of documents is not modelled (compared order-insensitively, like Python ==)",
     "serialize_none=True adds an explicit null for every unset field by definition: the fast document is compared with the "
     "regular one modulo top-level null entries",
